@@ -7,7 +7,7 @@ from typing import Optional
 from ..model import AnalysisError, const_value, dotted, kwarg, norm_text, walk_no_nested
 from ..report import Context
 from ..tuples import TupleEval, Unsupported, is_atom, show, sym
-from .common import calls_in, callee, enclosing_ifs, enum_members, is_none, peel_sequence
+from .common import arg_or_kw, calls_in, callee, enclosing_ifs, enum_members, is_none, peel_sequence
 
 DIMCONV = 'emsarray.conventions._base.DimensionConvention'
 WRAP_CALLS = {'abs', 'min', 'max', 'divmod'}
@@ -199,11 +199,13 @@ def run(ctx: Context) -> None:
     ctx.rule('R01.8', "the dimensions of each mesh grid kind are discovered from the mesh attributes with the documented precedence (shared with C10 R10.5)", floor=5)
     ctx.rule('R01.9', "a hand built convention uses the names it was given: ArakawaC pairs every grid kind with the coordinate names given for that kind, a CF grid hands a latitude / longitude name to its topology even when only one is given", floor=2)
     ctx.rule('R01.10', "a native index outside the grid is not wrapped by selection either: a negative index is refused before it reaches Dataset.isel (fact shared with C05 R05.1)", floor=1)
+    ctx.rule('R01.11', "the deprecated alias unravel_index is wind_index: both of its arguments are passed on, the grid kind to the grid kind", floor=2)
     from . import infra as _infra
     _infra.arakawa_names(ctx, 'R01.9')
     _infra.cf_grid_names(ctx, 'R01.9')
     # grid_dimensions of a CF grid is [y_dimension, x_dimension]: both are read off the coordinate the grid order follows
     _infra.cf_grid_dimensions(ctx, 'R01.2')
+    _infra.passes_parameters_on(ctx, 'R01.11', 'emsarray.conventions._base.Convention.unravel_index', "unravel_index stands for wind_index")
     ctx.assume("numpy.ravel_multi_index / unravel_index with equal shape, order='C', mode='raise' are mutually inverse on [0, prod(shape)) and raise outside it")
     ctx.assume("xarray Dataset.sizes reports the dimension lengths of the file")
 
@@ -428,6 +430,22 @@ def run(ctx: Context) -> None:
             ctx.check('R01.2', ok, "a coordinate of a SHOC simple grid is a variable on (j, i) in that order (the topology takes the grid's dimension order from the coordinate as stored)", st_, g_,
                       construct=f"coordinate search under {sorted(t for t, pol in fs if pol)}"[:300])
 
+        # ... and what was found is what the topology is built on: the latitude search under `latitude`, the longitude search under `longitude`
+        tcalls = [c for c in calls_in(st_) if (callee(ctx, st_, c) or '').endswith('CFGrid2DTopology')]
+        tflow = ctx.flow(st_)
+        tparams = [x for x in (p.functions.get('emsarray.conventions.grid.CFGridTopology.__init__').params if 'emsarray.conventions.grid.CFGridTopology.__init__' in p.functions else []) if x != 'self']
+        for key in ('latitude', 'longitude'):
+            ok, how = False, 'no CFGrid2DTopology(...) call'
+            for c in tcalls:
+                arg = arg_or_kw(c, tparams.index(key) if key in tparams else None, key)
+                if arg is None:
+                    how = f"`{key}` is not handed to the topology (it would search for it by its own rules)"
+                    continue
+                want = [g_ for g_ in searches if any(t.endswith(f"== '{key}'") and pol for t, pol in _facts01(ctx, st_, g_.elt, expand=False))]
+                ok = bool(want) and tflow.reaches(arg, lambda n: any(n is g_ for g_ in want))
+                how = f"`{key}` = {norm_text(tflow.resolve(arg))[:60]}"
+            ctx.check('R01.2', ok, f"the {key} a SHOC simple grid is built on is the variable found by the {key} search", st_, tcalls[0] if tcalls else st_.node, construct=how)
+
     # ---------------- R01.4 / R01.6 per convention
     with ctx.section('R01.4 / R01.6 per convention'):
         seen = set()
@@ -563,6 +581,10 @@ _A = 'src/emsarray/conventions/arakawa_c.py'
 _U = 'src/emsarray/conventions/ugrid.py'
 _G = 'src/emsarray/conventions/grid.py'
 VARIANTS = [
+    V('C01', 'shoc-simple-longitude-not-handed-on', 'src/emsarray/conventions/shoc.py', "        return CFGrid2DTopology(self.dataset, latitude=latitude, longitude=longitude)", "        return CFGrid2DTopology(self.dataset, latitude=latitude)", 'R01.2'),
+    V('C01', 'shoc-simple-names-exchanged', 'src/emsarray/conventions/shoc.py', "        return CFGrid2DTopology(self.dataset, latitude=latitude, longitude=longitude)", "        return CFGrid2DTopology(self.dataset, latitude=longitude, longitude=latitude)", 'R01.2'),
+    V('C01', 'benign-shoc-simple-positional', 'src/emsarray/conventions/shoc.py', "        return CFGrid2DTopology(self.dataset, latitude=latitude, longitude=longitude)", "        return CFGrid2DTopology(self.dataset, longitude, latitude)", None),
+    V('C01', 'unravel-alias-drops-grid-kind', 'src/emsarray/conventions/_base.py', "        return self.wind_index(linear_index, grid_kind=grid_kind)", "        return self.wind_index(linear_index)", 'R01.11'),
     V('C01', 'arakawa-unpack-reversed', _A, "        return index[0], index[1:]", "        return index[0], index[:0:-1]", 'R01.1'),
     V('C01', 'arakawa-pack-swapped', _A, "        return cast(ArakawaCIndex, (grid_kind, *indexes))", "        return cast(ArakawaCIndex, (grid_kind, indexes[1], indexes[0]))", 'R01.1'),
     V('C01', 'arakawa-pack-const-kind', _A, "        return cast(ArakawaCIndex, (grid_kind, *indexes))", "        return cast(ArakawaCIndex, (ArakawaCGridKind.face, *indexes))", 'R01.1'),
